@@ -99,6 +99,9 @@ def c01(report):
                 [dict(labelmap="int", unit=80, dtype="uint8"), dict(labelmap="str", unit=10000, dtype="int16")][report.seed % 2:][:1]
             job["bindings"] = job["bindings"] + narrow
     jobs += cf_jobs(["eg"], report.tier, report.seed, bfs=False, tag="-eps", eps=0.5, checks=("state", "result"))
+    # Thompson with a binarizer that is not the identity on {0, 1}: successes / failures are those of the converted history
+    jobs += cf_jobs(["ts"], report.tier, report.seed, bfs=False, tag="-flip", checks=("state", "result"),
+                    over=dict(InitBin="flip", Rewards={0, 1}, NewBins={"keep", "thr"}, QueryRows={0}))
     ecf.run_jobs(report, jobs, either(by_clause("state.acc", "state.total", "state.expv", "result.sampler"),
                                       by_clause("call.exception", ops={"fit", "partial_fit", "add_arm", "remove_arm",
                                                                        "predict_expectations"})))
@@ -337,10 +340,13 @@ NB_VARIANTS = {
                dict(metric="euclidean", radius=(1, 1), dims=2, labelmap="str", unit="1/4"),
                dict(metric="chebyshev", radius=(1, 1), dims=3, no_nhood=[1.0, 0.0]),
                dict(metric="sqeuclidean", radius=(2, 1), dims=2, grid=4, labelmap="float"),
-               dict(metric="cityblock", radius=(1, 2), dims=1, grid=5, no_nhood=[0.0, 1.0])],
+               dict(metric="cityblock", radius=(1, 2), dims=1, grid=5, no_nhood=[0.0, 1.0]),
+               # whole-number contexts given as an integer array to the first fit, half-integer rows afterwards
+               dict(metric="cityblock", radius=(3, 2), dims=2, grid=6, ctx_unit="1/2", int_first=True)],
     "knearest": [dict(metric="cityblock", k=2, dims=2), dict(metric="euclidean", k=3, dims=2, labelmap="str"),
                  dict(metric="chebyshev", k=1, dims=1, grid=4, unit="1/4"),
-                 dict(metric="sqeuclidean", k=3, dims=3, labelmap="float")],
+                 dict(metric="sqeuclidean", k=3, dims=3, labelmap="float"),
+                 dict(metric="euclidean", k=2, dims=2, grid=6, ctx_unit="1/2", int_first=True)],
     "lsh": [dict(n_tables=2, n_dims=2, dims=2), dict(n_tables=1, n_dims=1, dims=1, labelmap="str"),
             dict(n_tables=3, n_dims=3, dims=3, unit="1/4", n_jobs=2, backend="threading"),
             dict(n_tables=2, n_dims=2, dims=2, n_jobs=3, backend="threading", no_nhood=[0.0, 1.0], seed=5),
@@ -576,9 +582,12 @@ def c05(report):
               ("lsh", "ts", {}), ("clusters", "ts", {}), ("clusters", "eg", dict(epsilon=0.4)), ("tree", "ucb1", {}),
               ("tree", "ts", {}), ("tree", "eg", dict(epsilon=0.4)), ("radius", "lin-ts", dict(radius=(3, 1))),
               ("knearest", "lin-ts", dict(k=4)), ("lsh", "lin-ts", dict(n_dims=1, n_tables=2)), ("clusters", "lin-ts", {}),
-              ("radius", "lin-ucb", dict(radius=(3, 1))), ("lsh", "pop", {}), ("knearest", "random", {})]
+              ("radius", "lin-ucb", dict(radius=(3, 1))), ("lsh", "pop", {}), ("knearest", "random", {}),
+              # deterministic policies: one policy copy serves all rows of a chunk, so each row must start from a full reset
+              ("radius", "ucb1", dict(radius=(1, 1))), ("knearest", "ucb1", dict(k=1)), ("lsh", "ucb1", dict(n_dims=3)),
+              ("radius", "softmax", dict(radius=(1, 1))), ("knearest", "pop", dict(k=2))]
     if not thorough:
-        keep = [c for i, c in enumerate(combos) if (i + report.seed) % 2 == 0 or c[1] in ("lin-ts",) or c[0] == "tree"]
+        keep = [c for i, c in enumerate(combos) if (i + report.seed) % 2 == 0 or c[1] in ("lin-ts", "ucb1") or c[0] == "tree"]
         combos = keep
     cfgs = [nb.NbConfig(np_, lp=lp, **kw) for np_, lp, kw in combos]
     use = schedules if thorough else [s for s in schedules if s["m"] >= 2][:: 2]
